@@ -158,8 +158,8 @@ pub fn run_case(case: &Case, prep: &Prepared, spec: SchedSpec, max_steps: usize,
     let out = if case.save_problems {
         let d = scratch.fresh_dir("out");
         if case.stale_out {
-            for (n, c) in &prep.reference {
-                let mut stale = b"% left behind by an earlier task\n".to_vec();
+            for (i, (n, c)) in prep.reference.iter().enumerate() {
+                let mut stale = if i % 2 == 0 { b"% left behind by an earlier task\n".to_vec() } else { vec![] };
                 stale.extend_from_slice(c);
                 stale.extend_from_slice(b"tff(stale_tail, axiom, $false).\n");
                 let _ = fs::write(d.join(n), stale);
